@@ -672,6 +672,9 @@ func (device *AbacoUDPReceiver) stop() error {
 
 //------------------------------------------------------------------------------------------------
 
+// abacoReadTimeout is how long the packet reader waits for data before it ends the run by itself.
+const abacoReadTimeout = 5 * time.Second
+
 // AbacoSource represents all AbacoRing ring buffers and AbacoUDPReceiver objects
 // that can potentially supply data, as well as all AbacoGroups that are discovered in the
 // SampleData phase.
@@ -981,7 +984,7 @@ type AbacoBuffersType struct {
 
 func (as *AbacoSource) readerMainLoop() {
 	defer close(as.buffersChan)
-	const timeoutPeriod = 5 * time.Second
+	const timeoutPeriod = abacoReadTimeout
 	timeout := time.NewTimer(timeoutPeriod)
 	defer timeout.Stop()
 	ticker := time.NewTicker(as.readPeriod)
@@ -1122,6 +1125,11 @@ awaitmoredata:
 // for Lancero), we'll also want to handle those changes in this loop.
 func (as *AbacoSource) getNextBlock() chan *dataBlock {
 	panicTime := time.Duration(cap(as.buffersChan)) * as.readPeriod
+	// The reader ends the run by itself after abacoReadTimeout without data. This watchdog is meant for a
+	// reader that is stuck, so it must not be able to fire before the reader's own time-out has ended the run.
+	if panicTime < 2*abacoReadTimeout {
+		panicTime = 2 * abacoReadTimeout
+	}
 	verifAccess("sync:go:getNextBlock", true)
 	go func() {
 		verifAccess("sync:go:getNextBlock", false)
